@@ -10,6 +10,13 @@ def translate():
     return maxi_tables.run()
 
 
+def _e2e_pad_obligations():
+    # the composition of the padding clause with C01 (coq/e2e/E2EPadding.v) counts as obligations of the thorough
+    # tier (round 3 wave 3; lazy import, quick tier untouched; see props/e2e.py PAD_EXTRA)
+    from props import e2e
+    return e2e.obligations_pad()
+
+
 def _fields(line):
     head = line.split(" => ", 1)[0]
     return dict(t.split("=", 1) for t in head.split(" ")[1:] if "=" in t)
@@ -102,6 +109,10 @@ SPEC = dict(
     search_n={"quick": 3000, "thorough": 20000},
     nontrivial=nontrivial,
     histogram=histogram,
+    extra_obligations={"thorough": _e2e_pad_obligations},
+    extra_obligations_name="coq/e2e/E2EPadding.v: the padding clause composed with C01 (C07_padding_scored, "
+                           "C07_padding_answers, C07_padding_needs_wildcard_padding, C07_first_sentence_padded)",
+    extra_obligations_cmd="make -C coq/e2e (and imported groups) + Print Assumptions audit of LME2E.E2EPadding",
     rule="Proof: 52 theorems of coq/maxi/C07.v + 10 of coq/maxi/C07Source.v, all inputs (no bound on rows): over an "
          "abstract element type with a total preorder on the admissible values — generic max / argmax / threshold "
          "meet max_spec / argmax_spec (designated cell in range and >= every cell) / threshold_spec (NoDup, "
